@@ -110,8 +110,8 @@ Section Disabled.
     rewrite <- Ep in *.
     destruct (pp_loop possible layer _ rf (mkpp c [] [] None false) (start :: rest)) as [st| |] eqn:El; cbn [bind]; try discriminate.
     destruct (pp_loop_good possible _ rf (start :: rest) (mkpp c [] [] None false) st Hsub Hg (Forall_nil _) El) as [G1 C1].
-    assert (Hfin : forall c2 (b : bool) q, good_c c2 -> (if b then Ok (set_cv_queue q c2) else Ok c2) = Ok c' -> good_c c').
-    { intros c2 b q G X. destruct b; injection X as <-; [apply set_queue_good; exact G|exact G]. }
+    assert (Hfin : forall c2 (b : bool) q, good_c c2 -> (if b then Ok (set_cv_queue q (set_cv_until 0 c2)) else Ok c2) = Ok c' -> good_c c').
+    { intros c2 b q G X. destruct b; injection X as <-; [apply set_queue_good; apply set_until_good; exact G|exact G]. }
     destruct ((cv_until_change (pp_c st) =? 0) || rf).
     - destruct (find _ _) as [cch|] eqn:Ef.
       + destruct (Nat.ltb (length (cv_active c)) (length (cv_active (pp_c st)))) eqn:El2.
